@@ -23,4 +23,15 @@ CHECKS.update({
          "text": "No emitter template of the real compile() contains a loop/branch/comprehension keyword (rule over all 60+ templates); every generated text of the corpus is parsed and must consist of straight-line statements only, and its skeleton must be identical across five size assignments that agree on the length-1 axes.",
          "note": B_NOTE},
 })
+CHECKS.update({
+ "C11": {"level": "other", "technique": "contracts on BackendRegistryState proved from the real AST (precedence chain, priority filter, memo-write condition, LIFO with-stack; z3) + exhaustive small synthetic registries vs a selection spec",
+         "text": "_get's precedence chain, the priority filter/memo region of _get_by_tensors and _enter/_exit are proved for all registries and stacks from their ASTs; order/lookup-history stability and lazy/failing registration are evaluated on fresh real BackendRegistry objects with synthetic backends (all registration orders at the thorough tier) - bounded.",
+         "note": P_NOTE + "Induction over lookup histories on paper; real torch/jax factories not importable."},
+ "C12": {"level": "other", "technique": "lexer prefix of the real parse_op proved total for ALL strings (VCs from its AST; z3 + cvc5 string theory; Unicode digit classes from the running interpreter) + exhaustive token sequences for the recursive stages",
+         "text": "For every string the lexer loop's invariant, token classes, int()-safety and caret positions are discharged (260 obligations, 32 need cvc5); totality, caller-text quoting, round trip and re-spacing of the recursive parser stages are enumerated exhaustively up to 5/6 tokens - bounded.",
+         "note": P_NOTE + "Solver alphabets stop at U+2FFFF; parser stages after the lexer bounded only. Known finding F-ellipsis-braces reported on every run."},
+ "C03": {"level": "other", "technique": "exception-freedom obligations: lexer VCs for all strings (shared with C12), rule 'no backend code before the graph is built', bounded single-edit corruption corpus on all public entry points with traceback-origin classification",
+         "text": "raises ⊆ documented is proved for the lexer stage for all strings; that the compiled function is only called after graph construction succeeded is rule-checked; the remaining stages are exercised by every single-edit corruption of valid corpus calls (incl. solve_*), classifying an exception as documented only if an explicit raise inside einx produced it; certainly ill-formed calls must be rejected.",
+         "note": P_NOTE + B_NOTE},
+})
 NOT_APPLICABLE = {}
